@@ -53,7 +53,7 @@ var c11Ops = []string{
 	"emptyFields", "emptyEnumValues", "emptyUnionMembers", "emptyInputFields",
 	"nilInTypes", "nilUnionMember", "nilInterface", "nilArgConfig", "nilEnumValueConfig", "nilDirective", "nilDirectiveArg", "nilFieldType", "nilField", "typedNilQuery", "typedNilMutation", "nilInputFieldConfig", "nilInputFieldType", "nilArgType",
 	"ifaceFieldMissing", "ifaceFieldWrongType", "ifaceFieldContravariant", "ifaceArgMissing", "ifaceArgTypeDiffers", "ifaceExtraRequiredArg", "ifaceExtraOptionalArg",
-	"nonNullOfNonNull", "listOfNil", "nonNullOfNil",
+	"nonNullOfNonNull", "listOfNil", "nonNullOfNil", "nonNullOfNonNullBelowList", "nonNullOfNonNullArg", "nonNullOfNonNullInputField",
 	"objectAsArgType", "inputObjectAsFieldType", "objectAsInputFieldType", "interfaceAsArgType",
 	"missingQuery", "duplicateUnionMember", "duplicateInterface", "noResolveTypeNoIsTypeOf", "invalidDirectiveName", "directiveWithoutLocations",
 }
@@ -125,6 +125,12 @@ func (b *libBuilder) args(owner, field string, defs []*model.ArgDef) graphql.Fie
 		}
 		if f := b.has("nilArgType", owner, field); f != nil && f.Arg == a.Name {
 			cfg.Type = nil
+		}
+		if f := b.has("nonNullOfNonNullArg", owner, field); f != nil && f.Arg == a.Name {
+			cfg.Type = graphql.NewNonNull(graphql.NewNonNull(graphql.Int))
+			if f.Bad != "" {
+				cfg.Type = graphql.NewList(cfg.Type)
+			}
 		}
 		if f := b.has("objectAsArgType", owner, field); f != nil && f.Arg == a.Name {
 			cfg.Type = inputOf(b.firstOfKind(model.KObject))
@@ -205,6 +211,8 @@ func (b *libBuilder) fields(td *model.TypeDef) graphql.Fields {
 			}
 		case b.has("nonNullOfNonNull", td.Name, fd.Name) != nil:
 			ft = graphql.NewNonNull(graphql.NewNonNull(graphql.String))
+		case b.has("nonNullOfNonNullBelowList", td.Name, fd.Name) != nil:
+			ft = graphql.NewList(graphql.NewNonNull(graphql.NewNonNull(graphql.String)))
 		case b.has("listOfNil", td.Name, fd.Name) != nil:
 			ft = graphql.NewList(nil)
 		case b.has("nonNullOfNil", td.Name, fd.Name) != nil:
@@ -274,6 +282,9 @@ func (b *libBuilder) build() graphql.SchemaConfig {
 					cfg.Type = nil
 				case b.has("objectAsInputFieldType", td.Name, f.Name) != nil:
 					cfg.Type = inputOf(b.firstOfKind(model.KObject))
+				case b.has("nonNullOfNonNullInputField", td.Name, f.Name) != nil:
+					cfg.Type = graphql.NewNonNull(graphql.NewNonNull(graphql.Int))
+					cfg.DefaultValue = nil
 				}
 				fm[name] = cfg
 			}
@@ -868,7 +879,7 @@ func TestC11(t *testing.T) {
 			// aim the fault at a type of a fitting kind where that matters
 			want := map[string]string{"emptyEnumValues": model.KEnum, "invalidEnumValueName": model.KEnum, "nilEnumValueConfig": model.KEnum, "emptyUnionMembers": model.KUnion,
 				"nilUnionMember": model.KUnion, "duplicateUnionMember": model.KUnion, "emptyInputFields": model.KInput, "invalidInputFieldName": model.KInput,
-				"nilInputFieldConfig": model.KInput, "nilInputFieldType": model.KInput, "objectAsInputFieldType": model.KInput, "nilInterface": model.KObject}
+				"nilInputFieldConfig": model.KInput, "nilInputFieldType": model.KInput, "objectAsInputFieldType": model.KInput, "nonNullOfNonNullInputField": model.KInput, "nilInterface": model.KObject}
 			if f.Op == "duplicateInterface" {
 				// an object that declares as many interfaces as possible
 				best := -1
@@ -926,6 +937,10 @@ func TestC11(t *testing.T) {
 			case "invalidFieldName", "invalidArgName", "invalidEnumValueName", "invalidInputFieldName":
 				if gen.Chance(rt, 70, "drawnBadName") {
 					f.Bad = illegalNames[gen.Uniform(rt, len(illegalNames), "badName")]
+				}
+			case "nonNullOfNonNullArg":
+				if gen.Chance(rt, 40, "belowList") {
+					f.Bad = "list"
 				}
 			case "dupNameAcrossKinds":
 				other := s.Types[gen.Uniform(rt, len(s.Types), "other")]
